@@ -100,7 +100,11 @@ func (in *Interp) runRegion(fr *Frame, blk, prev, stop *ssa.BasicBlock, phisDone
 	}()
 	for {
 		if !phisDone {
-			fr.visits[blk]++
+			if prev != nil && fr.info.backedge[[2]int{prev.Index, blk.Index}] {
+				fr.visits[blk]++
+			} else {
+				fr.visits[blk] = 0
+			}
 			if fr.visits[blk] > in.cfg.Unwind {
 				panic(unsupported{fmt.Sprintf("unwinding bound %d exceeded in %s block %d", in.cfg.Unwind, fr.fn, blk.Index)})
 			}
@@ -150,10 +154,14 @@ func (in *Interp) runRegion(fr *Frame, blk, prev, stop *ssa.BasicBlock, phisDone
 				}
 				continue
 			}
-			ft := in.feasible(c)
-			ff := true
-			if ft {
-				ff = in.feasible(in.ts.Not(c))
+			// pruning is needed for termination only where the branch decides about staying in a
+			// loop; elsewhere both arms are executed under their guard and merged.
+			ft, ff := true, true
+			if (fr.info.prune[blk] && in.loopDepthVisits(fr, blk) >= in.cfg.PruneFrom) || in.pruneAll {
+				ft = in.feasible(c)
+				if ft {
+					ff = in.feasible(in.ts.Not(c))
+				}
 			}
 			if !ft && !ff {
 				panic(pathDead{"infeasible"})
@@ -945,4 +953,16 @@ func (in *Interp) refEqual(a, b Value) *Term {
 		return acc
 	}
 	panic(unsupported{fmt.Sprintf("comparison of %T", a)})
+}
+
+// loopDepthVisits: the largest back-edge count among loop headers currently being iterated
+// in this frame (a proxy for "this loop has gone round k times already").
+func (in *Interp) loopDepthVisits(fr *Frame, blk *ssa.BasicBlock) int {
+	m := 0
+	for _, v := range fr.visits {
+		if v > m {
+			m = v
+		}
+	}
+	return m
 }
